@@ -68,8 +68,9 @@ func Start() *Engine {
 			select {
 			case w := <-e.addWatcher:
 				logrus.Info("Add watcher")
-				watchers[w.id] = w
-				w.update(ctx, global)
+				if w.update(ctx, global) {
+					watchers[w.id] = w
+				}
 			case id := <-e.removeWatcher:
 				logrus.Info("Remove watcher")
 				// The watcher may already be gone (cancelled twice, failed, hung up).
@@ -90,7 +91,9 @@ func Start() *Engine {
 				global = global.With(Root, value)
 				for i, w := range watchers {
 					logrus.Infof("Update watcher %d", i)
-					w.update(ctx, global)
+					if !w.update(ctx, global) {
+						delete(watchers, i)
+					}
 				}
 			case <-e.stop:
 				logrus.Infof("Stop")
@@ -149,23 +152,28 @@ type watcher struct {
 	onclose  func(error)
 }
 
-func (w *watcher) update(ctx context.Context, global rel.Scope) {
+// update sends the watcher the value of its expression. It runs on the engine
+// goroutine, so it must not call w.cancel (which sends to that goroutine);
+// instead it closes the watcher and returns false to have it dropped.
+func (w *watcher) update(ctx context.Context, global rel.Scope) (alive bool) {
 	defer func() {
 		if err := recover(); err != nil {
 			w.onclose(errors.WrapPrefix(err, "update panic", 0))
+			alive = false
 		}
 	}()
 
 	value, err := w.expr.Eval(ctx, global)
 	if err != nil {
-		w.cancel()
 		w.onclose(err)
-		return
+		return false
 	}
 
 	if err = w.onupdate(value); err != nil {
-		w.cancel()
+		w.close()
+		return false
 	}
+	return true
 }
 
 func (w *watcher) close() {
